@@ -120,6 +120,31 @@ fn rename3(toks: &[Tok]) -> Vec<Tok> {
         .collect()
 }
 
+/// identifiers that start with a literal keyword (true, false) rather than an operator keyword
+fn rename4(toks: &[Tok]) -> Vec<Tok> {
+    toks.iter()
+        .map(|t| match t {
+            Tok::Var("a") => Tok::Var("truex"),
+            Tok::Var("b") => Tok::Var("falsey"),
+            Tok::Var("x") => Tok::Var("true1"),
+            Tok::Var("c") => Tok::Var("Truth"),
+            o => o.clone(),
+        })
+        .collect()
+}
+/// identifiers in which a keyword is continued by a non-ASCII letter
+fn rename5(toks: &[Tok]) -> Vec<Tok> {
+    toks.iter()
+        .map(|t| match t {
+            Tok::Var("a") => Tok::Var("notável"),
+            Tok::Var("b") => Tok::Var("oré"),
+            Tok::Var("x") => Tok::Var("andñ"),
+            Tok::Var("c") => Tok::Var("trueü"),
+            o => o.clone(),
+        })
+        .collect()
+}
+
 /// fractional number literals (2.5x, 2.5(x + 1))
 fn renum(toks: &[Tok]) -> Vec<Tok> {
     toks.iter()
@@ -174,6 +199,10 @@ fn check(toks: &[Tok], l: &mut Local) {
         ("keyword-prefixed-names-2", rename2(toks), true, true),
         ("exponent-like-names", rename3(toks), false, true),
         ("fractional-literals", renum(toks), false, true),
+        ("literal-keyword-prefixed-names", rename4(toks), false, false),
+        ("literal-keyword-prefixed-names-tight", rename4(toks), true, true),
+        ("keyword-continued-by-non-ascii-letter", rename5(toks), false, false),
+        ("keyword-continued-by-non-ascii-letter-tight", rename5(toks), false, true),
     ];
     for (vname, vt, alias, tight) in variants {
         let text = render_tokens(&vt, alias, tight);
@@ -371,7 +400,7 @@ pub fn run(mut run: Run) -> ! {
     crate::core::silence_panics();
     let max_len = if run.quick() { 7 } else { 8 };
     let seqs = Arc::new(gen_all(max_len, &["a", "b", "x"], &["2"]));
-    run.rule = format!("all well-formed token sequences of length <= {max_len} over operands {{a,b,x,2}}, 9 binary operators, prefix - and not, parentheses and implicit multiplication (number|parenthesis)+ variable?, generated by a grammar-directed DFS (complete over well-formed sequences); each is rendered with keywords, with symbolic aliases, with/without whitespace with identifiers that start with a keyword and with identifiers that look like a decimal exponent (e, e1, E2) glued to a number, and with fractional literals, in objective and constraint position; plus long flat chains on one level (8..128 terms of + and -, 8..40 factors of * and /, the second operator of the level at every single position and every pair of positions up to 40 terms, periodic patterns and split-point pairs beyond), compiled at top level and under a parenthesised factor and compared by objective coefficients with the left-to-right reading; distinct = reference tree shapes");
+    run.rule = format!("all well-formed token sequences of length <= {max_len} over operands {{a,b,x,2}}, 9 binary operators, prefix - and not, parentheses and implicit multiplication (number|parenthesis)+ variable?, generated by a grammar-directed DFS (complete over well-formed sequences); each is rendered with keywords, with symbolic aliases, with/without whitespace with identifiers that start with an operator keyword, with a literal keyword (truex, falsey, true1) or with a keyword continued by a non-ASCII letter (notável, oré) and with identifiers that look like a decimal exponent (e, e1, E2) glued to a number, and with fractional literals, in objective and constraint position; plus long flat chains on one level (8..128 terms of + and -, 8..40 factors of * and /, the second operator of the level at every single position and every pair of positions up to 40 terms, periodic patterns and split-point pairs beyond), compiled at top level and under a parenthesised factor and compared by objective coefficients with the left-to-right reading; distinct = reference tree shapes");
     run.assume("reference: precedence climbing with one prefix operator per leaf binding tightest, * / > + - > and > xor > or > {implies right, iff left} on one level, implicit multiplication forming one left-folded factor; shapes (not only values) are compared, which is stronger than the property");
     let s2 = seqs.clone();
     run.family(&format!("token-sequences-len<={max_len}"), seqs.len() as u64, move |i, l| {
